@@ -10,7 +10,7 @@ use std::path::PathBuf;
 use progress::fmt_size;
 
 use clap::{Parser, Subcommand};
-use color_eyre::eyre::{ContextCompat, WrapErr};
+use color_eyre::eyre::{eyre, ContextCompat, WrapErr};
 use ruzstd::encoding::CompressionLevel;
 use tracing::info;
 use tracing_indicatif::IndicatifLayer;
@@ -40,14 +40,14 @@ enum Commands {
         ///
         /// - 0: Uncompressed
         /// - 1: Fastest
-        /// - 2: Default
-        /// - 3: Better
-        /// - 4: Best
+        /// - 2: Default (not implemented yet)
+        /// - 3: Better (not implemented yet)
+        /// - 4: Best (not implemented yet)
         #[arg(
             short,
             long,
             value_name = "COMPRESSION_LEVEL",
-            default_value_t = 2,
+            default_value_t = 1,
             verbatim_doc_comment
         )]
         level: u8,
@@ -106,11 +106,14 @@ fn compress(input: PathBuf, output: PathBuf, level: u8) -> color_eyre::Result<()
     let compression_level: ruzstd::encoding::CompressionLevel = match level {
         0 => CompressionLevel::Uncompressed,
         1 => CompressionLevel::Fastest,
-        2 => CompressionLevel::Default,
-        3 => CompressionLevel::Better,
-        4 => CompressionLevel::Best,
+        // The library does not implement these levels yet and would panic after the output file was created
+        2..=4 => {
+            return Err(eyre!(
+                "compression level {level} is not implemented yet, use 0 or 1"
+            ));
+        }
         _ => {
-            unimplemented!("unsupported compression level: {}", level);
+            return Err(eyre!("unsupported compression level: {level}"));
         }
     };
     let source_file = File::open(input).wrap_err("failed to open input file")?;
